@@ -23,9 +23,9 @@ PATTERNS = ["*", "src/*", "debian/rules", "a?.c", "doc/æ—¥æœ¬èªž.txt", "doc/æ—¥æ
 TEXTS = ["line1", "line1\n\n  indented\nlast", "Ã© Ã¼\n\n\nx", "a\n .\nb", "  lead", "t\n. \n  .\nend", "", "ends with blanks  ",
          "l1\nlast line\t ", "a\nb\u3000",
          "quoted statement:\n-----BEGIN PGP SIGNED MESSAGE-----\nHash: SHA256\n\nbody\n-----BEGIN PGP SIGNATURE-----\nabc=\n-----END PGP SIGNATURE-----\nafter",
-         "-----END PGP PUBLIC KEY BLOCK-----"]
+         "-----END PGP PUBLIC KEY BLOCK-----", "Rene\u0301 Mu\u0308ller\n\u212b \u2126 \ufb01 (not in a Unicode normal form)"]
 SYNOPSES = ["GPL-2+", "MIT or Expat", "X", "GPL-2+ with exception"]
-COPYRIGHTS = ["2020 A", "2020 A\n 2021 B <b@c>", "Â© Ã©", "", "2020 A\n 2021 B  ", "2020 A\n -----BEGIN PGP SIGNATURE-----\n 2021 B"]
+COPYRIGHTS = ["2020 A", "2020 A\n 2021 B <b@c>", "Â© Ã©", "", "2020 Rene\u0301 \u212b", "2020 A\n 2021 B  ", "2020 A\n -----BEGIN PGP SIGNATURE-----\n 2021 B"]
 
 
 def in_domain(ls):
@@ -89,6 +89,83 @@ class LineRoundTrip(Lemma):
     claim = "dec_line(i, fmt_line(i, line)) == line and (i == 0 or fmt_line(i, line).startswith(' '))"
 
 
+# P-17c  _SpaceSeparated.to_str (what assigning a pattern list to `files` stores): None for an empty list; otherwise the values,
+# each stripped, joined by exactly one blank, in order; MachineReadableFormatError iff a value contains whitespace or is empty.
+def strip_all(l):
+    if len(l) == 0:
+        return empty_lines()
+    return [l[0].strip()] + strip_all(l[1:])
+
+
+def all_plain(l):
+    if len(l) == 0:
+        return True
+    return (not has_space(l[0])) and len(l[0].strip()) > 0 and all_plain(l[1:])
+
+
+class SpaceSeparatedToStr(Contract):
+    locals_order = ['cls', 'seq', 'l', 'tmp', 's']
+    target = MOD + ":_SpaceSeparated.to_str"
+    modular = False
+    ensures = ("all_plain(seq)", "implies(len(seq) == 0, result is None)",
+               "implies(len(seq) > 0, result == ' '.join(strip_all(seq)))")
+    raises = {"MachineReadableFormatError": ("not all_plain(seq)",)}
+    loops = {0: LoopSpec(invariants=("0 <= si and si <= len(l)", "l == seq", "tmp + strip_all(l[si:]) == strip_all(l)",
+                                     "all_plain(l[si:]) == all_plain(l)"),
+                         index="si", var_types={"s": "str", "tmp": ("list", "str")})}
+
+    def setup(self, ex):
+        return {"cls": ex.eval_text("_SpaceSeparated"), "seq": fresh(("list", "str"), "seq").val}
+
+
+# P-17d  _LineBased.to_str (how the copyright-holder / file lists of a header are stored): None for an empty list, the stripped
+# value for one element, otherwise an empty first line and ' ' + stripped value per element, joined by newlines, in order;
+# MachineReadableFormatError iff a stripped value is empty or contains a newline.
+def lines_of(l):
+    if len(l) == 0:
+        return empty_lines()
+    return [" " + l[0].strip()] + lines_of(l[1:])
+
+
+def all_lines_ok(l):
+    if len(l) == 0:
+        return True
+    return len(l[0].strip()) > 0 and ("\n" not in l[0].strip()) and all_lines_ok(l[1:])
+
+
+class LineBasedToStr(Contract):
+    locals_order = ['seq', 'l', 'process_and_validate', 'tmp', 's']
+    target = MOD + ":_LineBased.to_str"
+    modular = False
+    requires = ("mention(all_lines_ok(seq[1:]))",)       # (always true: asks for the unfolding of the predicate on the tail)
+    ensures = ("all_lines_ok(seq)", "implies(len(seq) == 0, result is None)",
+               "implies(len(seq) == 1, result == seq[0].strip())",
+               "implies(len(seq) > 1, result == '\\n'.join([''] + lines_of(seq)))")
+    raises = {"MachineReadableFormatError": ("not all_lines_ok(seq)",)}
+    loops = {0: LoopSpec(invariants=("0 <= si and si <= len(l)", "l == seq", "tmp + lines_of(l[si:]) == [''] + lines_of(l)",
+                                     "all_lines_ok(l[si:]) == all_lines_ok(l)"),
+                         index="si", var_types={"s": "str", "tmp": ("list", "str")})}
+
+    def setup(self, ex):
+        return {"seq": fresh(("list", "str"), "seq").val}
+
+
+def verify_space_separated(ctx, real):
+    sl = SpecLib()
+    w = World(sl)
+    pat = real._SpaceSeparated._has_space
+    w.spec_env["has_space"] = VFunc("builtin", "re_test",
+                                    fn=lambda ex, a, kw: __import__("vf.pyvc.values", fromlist=["VBool"]).VBool(ex.truth(sl.re_match(ex, pat, a[0], "search"))))
+    w.spec_env["empty_lines"] = VFunc("builtin", "empty_lines",
+                                      fn=lambda ex, a, kw: VSeq("list", "str", z3.Empty(z3.SeqSort(z3.SeqSort(z3.IntSort())))))
+    w.spec_func(strip_all, rec=dict(args=[("list", "str")], ret=("list", "str")))
+    w.spec_func(all_plain, rec=dict(args=[("list", "str")], ret="bool"))
+    w.spec_func(lines_of, rec=dict(args=[("list", "str")], ret=("list", "str")))
+    w.spec_func(all_lines_ok, rec=dict(args=[("list", "str")], ret="bool"))
+    verify_contracts(ctx, w, [SpaceSeparatedToStr(), LineBasedToStr()], {})
+    ctx.solve()
+
+
 def run_deductive(ctx):
     sl = SpecLib()
     w = World(sl)
@@ -120,6 +197,7 @@ def run(ctx):
         if node is not None:
             ctx.function_under_contract(MOD + ":" + q, mod.segment(node))
     run_deductive(ctx)
+    verify_space_separated(ctx, extract.load(MOD).real())
     rng = random.Random(ctx.seed)
     N = 3 if ctx.tier == "quick" else 4
     t = Tally(ctx, "B-17 multiline codec on all short line lists; documents dump -> strict parse -> dump",
@@ -196,7 +274,7 @@ def run(ctx):
     ctx.explanation = ("PROVED from the AST: format_multiline_lines(lines) == '\\n'.join of the per-line encoding fmt_line (loop invariant); "
                        "LEMMA (all lines): decoding an encoded line gives the line back whenever it is not whitespace-only and not a "
                        "lone '.', and every encoded continuation line starts with a blank; a continuation line is never taken for a "
-                       "PGP armor line or a paragraph separator by the patterns of split_gpg_and_payload (SMT on the real patterns); split_gpg_and_payload, from its real AST, returns exactly the lines (CR / LF stripped) as payload - nothing taken for armor, nothing cut off - for every sequence of lines none of which matches the armor pattern or the separator pattern in force (loop invariant over the line index; both parser settings). NOT proved: parse_multiline_as_lines (in-place "
+                       "PGP armor line or a paragraph separator by the patterns of split_gpg_and_payload (SMT on the real patterns); split_gpg_and_payload, from its real AST, returns exactly the lines (CR / LF stripped) as payload - nothing taken for armor, nothing cut off - for every sequence of lines none of which matches the armor pattern or the separator pattern in force (loop invariant over the line index; both parser settings). ALSO PROVED from the ASTs: _SpaceSeparated.to_str and _LineBased.to_str against recursive specifications (every value stripped, in order, joined by exactly one blank resp. each on a line of its own after an empty first line; None for an empty list; MachineReadableFormatError exactly when a value is empty or contains whitespace resp. a newline). NOT proved: parse_multiline_as_lines (in-place "
                        "update while iterating), the join/splitlines law, License / paragraph classes - BOUNDED part (see module docstring).")
     ctx.assumptions += ["the single empty line list [''] is outside the domain of the codec clause (it encodes to '' which decodes to [])",
                         "lines contain no line-boundary characters"]
